@@ -225,7 +225,27 @@ def run_case(sim, seed, i):
     return stats, viols
 
 
+def watch_case(sim, seed, i):
+    """`yardl generate --watch` as the process that must not write: a C20 workload (edits, schedule, faults) in which a file
+    with a syntax error appears in a directory the package reads and stays while other files are saved; judged here is only
+    that no regeneration started after that save touches the disk."""
+    import importlib
+    W = importlib.import_module("checks.C20")
+    doc = W.make_case(M.derive(seed, "c11watch", i).next() % (1 << 40), i, force_end="unfinished_file")
+    viol, st = W.execute(sim, doc)
+    out = []
+    if viol is not None and viol.get("class") == "output_written_while_package_invalid":
+        out.append(({"class": "output_written_while_package_invalid_in_watch_mode", "first": viol.get("first")}, dict(doc, kind="watch")))
+    return st, out
+
+
 def replay(sim, doc):
+    if doc.get("kind") == "watch":
+        import importlib
+        W = importlib.import_module("checks.C20")
+        viol, _ = W.execute(sim, doc)
+        hit = viol is not None and viol.get("class") == "output_written_while_package_invalid"
+        return hit, str(viol)
     init = dict(doc["files"])
     init.update(doc.get("pre_files", {}))
     res = sim.run(tw.oneshot_spec(init, "/w/pkg", dirs=doc.get("pre_dirs", []), faults=doc.get("faults", [])), mapseed=doc["mapseed"])
@@ -316,6 +336,20 @@ def main():
                 check.report(rec, doc)
         if len(check.violations) >= 3:
             break
+    # watch mode: the same command as a long-lived process
+    totals["watch_cases"] = totals["watch_regenerations_started_while_invalid"] = 0
+    j = 0
+    max_watch = 96 if quick else 4000
+    wbudget = check.elapsed() + (30 if quick else 400)
+    while j < max_watch and check.elapsed() < wbudget and len(check.violations) < 3:
+        idx = list(range(j, min(j + 48, max_watch)))
+        j += len(idx)
+        for st, viols in sim.map(idx, lambda c: watch_case(sim, args.seed, c)):
+            totals["runs"] += st.get("runs", 1)
+            totals["watch_cases"] += 1
+            totals["watch_regenerations_started_while_invalid"] += st.get("regenerations_started_while_invalid_for_good", 0)
+            for rec, doc in viols:
+                check.report(rec, doc)
     wall = check.elapsed()
     check.coverage["rule"] = ("one case = one generated valid package (random targets, output dirs beside or inside the package, with/without imports and "
                               "previous versions, output pre-populated or empty) + one certainly-invalid change at a seeded location, executed once, plus 3 "
@@ -324,6 +358,7 @@ def main():
         "simulated_runs": totals["runs"], "runs_per_hour": int(totals["runs"] / max(wall, 1e-9) * 3600), "totals": totals,
         "invalidation_matrix": matrix,
         "fault_kinds": {"read_fault_fired(EIO/EACCES/ENOENT on open/read/stat/lstat/readdir)": totals["faults_fired"],
+                        "watch_mode_regenerations_started_while_the_package_was_invalid_for_good": totals["watch_regenerations_started_while_invalid"],
                         "reported_by_yardl": totals["fault_reported"], "absorbed_by_yardl(not judged)": totals["fault_absorbed"]},
         "real_code": "all of tooling/** compiled from the working tree; cobra root command entry point",
         "stubbed": "os, path/filepath, os/exec, fsnotify (simulated OS)",
@@ -333,4 +368,5 @@ def main():
     check.finish()
 
 
-main_guard(main)
+if __name__ == "__main__":
+    main_guard(main)
